@@ -341,6 +341,45 @@ func slowNeighbour(stop <-chan struct{}) error {
 	return nil
 }
 
+// quirkyNeighbour uses one more connection, to a BMC with habits of its own that
+// are all within the specification: it can return at most 16 SDR bytes per
+// response (longer reads get 0xCA), answers the first request of every command
+// with node busy and numbers its RMCP and session-less headers. Whatever the
+// library makes of that BMC, the other connections must not notice.
+func quirkyNeighbour() error {
+	c := hx.Creds{User: "quirky", Password: []byte("pw"), Priv: 4, Suite: hx.Suites9()[2], Seed: 99}
+	w := hx.NewWorldFor(c, true)
+	b := w.BMC
+	for i := 0; i < 5; i++ {
+		f := ref.FSR{Number: byte(i), M: 1, ID: ref.IDString{Enc: ref.Enc8Bit, Codes: []byte("narrow buffer")}}
+		b.Data.Repo.Records = append(b.Data.Repo.Records, simbmc.Record{ID: uint16(i + 1), Bytes: f.Record(uint16(i + 1))})
+	}
+	b.Data.Repo.MaxRead = 16
+	b.RMCPSeq, b.NumberPlain = 0x2a, true
+	sess, err := w.T.NewV2Session(context.Background(), c.Opts())
+	if err != nil {
+		return err
+	}
+	seen := map[string]bool{}
+	b.Intercept = func(b *simbmc.BMC, rx *simbmc.Rx) {
+		if rx.Msg == nil || rx.Msg.IsResponse() {
+			return
+		}
+		k := fmt.Sprintf("%x/%x/%x", rx.Msg.NetFn, rx.Msg.Cmd, rx.Msg.Data)
+		if !seen[k] {
+			seen[k] = true
+			rx.Replies = []memnet.Out{b.Wrap(rx.Sess, b.ResponseFor(rx.Msg, 0xC0, nil).Bytes())}
+		}
+	}
+	ctx, cancel := context.WithTimeout(context.Background(), 150*time.Millisecond)
+	defer cancel()
+	sess.GetDeviceID(ctx)
+	bmc.RetrieveSDRRepository(ctx, sess) // fails or not: the neighbour's own business
+	dcmi.GetSensorInfo(ctx, sess)
+	sess.Close(context.Background())
+	return nil
+}
+
 func TestConcurrent(t *testing.T) {
 	ns := []int{8}
 	procs := []int{4}
@@ -425,6 +464,14 @@ func TestConcurrent(t *testing.T) {
 					if !runAlone() {
 						t.FailNow()
 					}
+					if rep == 1 {
+						// between the two phases a connection to a BMC with unusual
+						// (legitimate) habits is used in this process
+						if err := quirkyNeighbour(); err != nil {
+							t.Fatalf("harness: %v", err)
+						}
+						ev.Label("quirky-neighbour-connection")
+					}
 					runTogether()
 				}
 				ev.Eval()
@@ -462,5 +509,5 @@ func TestConcurrent(t *testing.T) {
 
 func TestCoverage(t *testing.T) {
 	ev.RequireLabels(t, 2, "overlapped:N=8:GOMAXPROCS=4")
-	ev.RequireLabels(t, 1, "concurrent-complete", "order:together-first", "slow-neighbour-connection", "udp-workload-with-back-off-sleep")
+	ev.RequireLabels(t, 1, "concurrent-complete", "order:together-first", "slow-neighbour-connection", "quirky-neighbour-connection", "udp-workload-with-back-off-sleep")
 }
